@@ -1,6 +1,6 @@
 From Coq Require Import ZArith List String.
 From DRX Require Import Py.PyBytes Py.Val.
-From DRX Require Model.ScoreIO Model.RiffIO Model.IndexIO Model.XtractIO Model.SndIO.
+From DRX Require Model.ScoreIO Model.RiffIO Model.IndexIO Model.XtractIO Model.SndIO Model.VwscIO.
 Import ListNotations.
 Open Scope string_scope.
 
@@ -20,7 +20,8 @@ Definition table : list (string * (val -> val)) := [
   ("parse_vwlb", Model.IndexIO.run_parse_vwlb);
   ("parse_vwcf", Model.IndexIO.run_parse_vwcf);
   ("extract", Model.XtractIO.run_extract);
-  ("snd_to_sampled", Model.SndIO.run_snd_to_sampled)
+  ("snd_to_sampled", Model.SndIO.run_snd_to_sampled);
+  ("parse_vwsc_file", Model.VwscIO.run_parse_vwsc_file)
 ].
 
 Fixpoint lookup (n : string) (t : list (string * (val -> val))) : option (val -> val) :=
